@@ -362,8 +362,138 @@ impl Prop for TimeSetClear {
     }
 }
 
+#[derive(Debug, Clone, Hash, Serialize, Deserialize)]
+pub struct ChainCase {
+    pub i: Inst,
+    pub off: i32,
+    pub ops: Vec<Op>,
+}
+
+fn apply_dt(d: &DateTime, op: &Op) -> Result<DateTime, AstrolabeError> {
+    Ok(match op {
+        Op::Set { field, v } => match field {
+            0 => d.set_year(*v as i32)?,
+            1 => d.set_month(*v as u32)?,
+            2 => d.set_day(*v as u32)?,
+            3 => d.set_day_of_year(*v as u32)?,
+            4 => d.set_hour(*v as u32)?,
+            5 => d.set_minute(*v as u32)?,
+            6 => d.set_second(*v as u32)?,
+            7 => d.set_milli(*v as u32)?,
+            8 => d.set_micro(*v as u32)?,
+            _ => d.set_nano(*v as u32)?,
+        },
+        Op::Clear { until } => match until {
+            0 => d.clear_until_year(),
+            1 => d.clear_until_month(),
+            2 => d.clear_until_day(),
+            3 => d.clear_until_hour(),
+            4 => d.clear_until_minute(),
+            5 => d.clear_until_second(),
+            6 => d.clear_until_milli(),
+            7 => d.clear_until_micro(),
+            _ => d.clear_until_nano(),
+        },
+    })
+}
+
+/// chains of 2..4 set/clear operations on one DateTime: the local-field model is applied step
+/// by step, and after every step the instant, the offset and all getters are compared. A step
+/// that leaves a non-normalised value behind shows in the next step.
+pub struct Chain;
+impl Prop for Chain {
+    type Case = ChainCase;
+    const NAME: &'static str = "C09.chain";
+    const BYTES: usize = 160;
+    fn gen(u: &mut Unstructured<'_>) -> arbitrary::Result<ChainCase> {
+        let whole_hours = u.coin(1, 2)?;
+        let off = if whole_hours { u.int_in_range(-23..=23i32)? * 3600 } else { gen::offset(u)? };
+        let i = gen::inst(u, 400)?;
+        let mut ops = Vec::new();
+        if u.coin(1, 3)? {
+            // aim at an exact UTC midnight: local hh:00:00.0 with hh = offset hours (mod 24), then a date setter
+            let hh = (off / 3600).rem_euclid(24) as i64;
+            ops.push(Op::Clear { until: 4 });
+            ops.push(Op::Set { field: 4, v: hh });
+            if off % 3600 != 0 {
+                ops.push(Op::Set { field: 5, v: ((off % 3600) / 60).rem_euclid(60) as i64 });
+                ops.push(Op::Set { field: 6, v: (off % 60).rem_euclid(60) as i64 });
+            }
+            ops.push(Op::Set { field: *u.choose(&[1u8, 2, 3])?, v: u.range_i64(1, 28)?.min(12).max(1) });
+            ops.push(Op::Set { field: 2, v: u.range_i64(1, 28)? });
+        } else {
+            for _ in 0..2 + u.below(3)? {
+                ops.push(if u.coin(2, 3)? {
+                    let field = u.below(10)? as u8;
+                    let max = [0i64, 12, 28, 365, 23, 59, 59, 999, 999_999, 999_999_999][field as usize];
+                    let v = if field == 0 { u.range_i64(-3000, 3000)? } else { u.range_i64(if field <= 3 { 1 } else { 0 }, max)? };
+                    Op::Set { field, v: if field == 0 && v == 0 { 1 } else { v } }
+                } else {
+                    Op::Clear { until: 1 + u.below(8)? as u8 }
+                });
+            }
+        }
+        Ok(ChainCase { i, off, ops })
+    }
+    fn check(c: &ChainCase, cx: &mut Cx) -> Verdict {
+        if !c.i.valid() || c.off.abs() > 86_399 || c.ops.len() > 8 || c.i.day < cal::MIN_DAY + 3 || c.i.day > cal::MAX_DAY - 3 {
+            return Verdict::Skip("malformed case");
+        }
+        let mut d = match catch(|| mk_dt_off(c.i.i(), c.off)) {
+            Ok(d) => d,
+            Err(p) => return fail("c09.harness_build", "receiver builds", p.short()),
+        };
+        let mut local = c.i.i() + c.off as i128 * tl::NS;
+        for (k, op) in c.ops.iter().enumerate() {
+            match op {
+                Op::Set { field, v } if *field > 9 || (*field == 0 && i32::try_from(*v).is_err()) || (*field != 0 && u32_of(*v).is_none()) => return Verdict::Skip("malformed case"),
+                Op::Clear { until } if *until > 8 => return Verdict::Skip("malformed case"),
+                _ => {}
+            }
+            cx.extra_evals += 1;
+            let want = model(local, op);
+            if let Some(w) = want {
+                let wd = w.div_euclid(tl::DAY_NS) as i64;
+                if wd < cal::MIN_DAY + 2 || wd > cal::MAX_DAY - 2 {
+                    return Verdict::Skip("target local date within 2 days of a range end (unspecified)");
+                }
+                if (w - c.off as i128 * tl::NS).rem_euclid(tl::DAY_NS) == 0 && k + 1 < c.ops.len() {
+                    cx.nt("intermediate_value_exactly_at_utc_midnight");
+                }
+            }
+            let what = format!("step {} {:?} of {:?} on {} [offset {}]", k + 1, op, c.ops, fmt_instant(c.i.i()), c.off);
+            match (want, catch(|| apply_dt(&d, op))) {
+                (_, Err(p)) => return fail("c09.chain.panic", format!("{} returns", what), p.short()),
+                (None, Ok(Ok(r))) => return fail("c09.chain.accepts_invalid", format!("{} = Err(OutOfRange)", what), fmt_instant(rd_dt(&r))),
+                (None, Ok(Err(e))) => {
+                    if !matches!(e, AstrolabeError::OutOfRange(_)) {
+                        return fail("c09.chain.wrong_error", "OutOfRange", format!("{:?}", e));
+                    }
+                }
+                (Some(w), Ok(Err(e))) => return fail("c09.chain.rejects_valid", format!("{} = local {}", what, fmt_instant(w)), format!("Err({})", e)),
+                (Some(w), Ok(Ok(r))) => {
+                    let got = match catch(|| (rd_dt(&r), r.get_offset(), (r.year(), r.month(), r.day(), r.hour(), r.minute(), r.second(), r.nano()))) {
+                        Ok(g) => g,
+                        Err(p) => return fail("c09.chain.getters_panic", format!("getters after {}", what), p.short()),
+                    };
+                    let wf = tl::fields(w);
+                    let want_obs = (w - c.off as i128 * tl::NS, Offset::Fixed(c.off), (wf.year as i32, wf.month, wf.dom, wf.hour, wf.minute, wf.second, wf.subsec));
+                    if got != want_obs {
+                        return fail("c09.chain.wrong_state", format!("{} = local {} ({:?})", what, fmt_instant(w), want_obs.2), format!("instant {} offset {:?} getters {:?}", fmt_instant(got.0), got.1, got.2));
+                    }
+                    d = r;
+                    local = w;
+                }
+            }
+        }
+        cx.nt("chain_of_setters");
+        Verdict::Pass
+    }
+}
+
 pub fn run(env: &mut Env) {
     let t = env.thorough();
     env.run_random::<SetClear>(if t { 40_000_000 } else { 5_000_000 });
     env.run_random::<TimeSetClear>(if t { 5_000_000 } else { 1_000_000 });
+    env.run_random::<Chain>(if t { 5_000_000 } else { 1_000_000 });
 }
